@@ -1149,11 +1149,11 @@ func (u *UtxoNursery) waitForTimeoutConf(baby *babyOutput,
 	}
 
 	u.mu.Lock()
-	defer u.mu.Unlock()
 
 	// TODO(conner): add retry utxnLogic?
 
 	err := u.cfg.Store.CribToKinder(baby)
+	u.mu.Unlock()
 	if err != nil {
 		utxnLog.Errorf("Unable to move htlc output from "+
 			"crib to kindergarten bucket: %v", err)
@@ -1162,6 +1162,25 @@ func (u *UtxoNursery) waitForTimeoutConf(baby *babyOutput,
 
 	utxnLog.Infof("Htlc output %v promoted to "+
 		"kindergarten", baby.OutPoint())
+
+	// The kindergarten output is filed under the height at which its CSV
+	// delay expires. If the confirmation was only found late, e.g. because
+	// the timeout transaction confirmed while we were offline, that height
+	// may already have passed. The incubator only graduates the class of
+	// each newly connected block, so the output would stay in kindergarten
+	// until the next restart. Graduate its class right away instead.
+	maturityHeight := baby.ConfHeight() + baby.BlocksToMaturity()
+	if maturityHeight <= atomic.LoadUint32(&u.bestHeight) {
+		utxnLog.Debugf("Late confirmation for htlc output=%v "+
+			"detected: class_height=%v, best_height=%v",
+			baby.OutPoint(), maturityHeight,
+			atomic.LoadUint32(&u.bestHeight))
+
+		if err := u.graduateClass(maturityHeight); err != nil {
+			utxnLog.Errorf("error while graduating class at "+
+				"height=%d: %v", maturityHeight, err)
+		}
+	}
 }
 
 // registerPreschoolConf is responsible for subscribing to the confirmation of
